@@ -157,6 +157,28 @@ let run_tree line =
     if wf_tree h (nn srclen) then "1" else "0"
   | _ -> "0"
 
+(* ---------- byte functions: "<name> <hex>" -> hex *)
+let run_bytes line =
+  match split_on ' ' line with
+  | [name; h] ->
+    let s = bytes_of_hex h in
+    let ws = is_whitespace_or_line_ending in
+    let r = match name with
+      | "label" -> label_from_string s
+      | "clean00" -> clean_string ws false false s
+      | "clean10" -> clean_string ws true false s
+      | "clean01" -> clean_string ws false true s
+      | "clean11" -> clean_string ws true true s
+      | "esc_html" -> esc esc_html s | "esc_html_br" -> esc esc_html_br s | "esc_latex" -> esc esc_latex s
+      | "esc_odf" -> esc esc_odf s | "esc_odf_br" -> esc esc_odf_br s | "esc_opml" -> esc esc_opml s
+      | "esc_itmz" -> esc esc_itmz s
+      | "utf8" -> if valid_utf8 s then [n_of_int 49] else [n_of_int 48]
+      | "xmltext" -> if xml_safe false s then [n_of_int 49] else [n_of_int 48]
+      | "xmlattr" -> if xml_safe true s then [n_of_int 49] else [n_of_int 48]
+      | _ -> failwith ("unknown byte function " ^ name) in
+    hex_of_bytes r
+  | _ -> "?"
+
 let () =
   let model = Sys.argv.(1) in
   let f = match model with
@@ -165,6 +187,7 @@ let () =
     | "pool" -> run_pool
     | "lemon" -> run_lemon
     | "tree" -> run_tree
+    | "bytes" -> run_bytes
     | _ -> failwith "unknown model" in
   try while true do
     let line = input_line stdin in
